@@ -165,8 +165,9 @@ _L_OFF = _LCTX_OFF.get_target_language()
 
 def generated_is_referenced_without_stropping(sel: typing.List[typing.Tuple[int, int, int]]) -> bool:
     """
-    pre: 1 <= len(sel) <= 2
+    pre: 1 <= len(sel) <= 2 and (len(sel) == 1 or FIRST >= 0)
     pre: all(0 <= a < len(NSS) and 0 <= b < len(NAMES) and 0 <= c <= 1 for a, b, c in sel)
+    pre: FIRST < 0 or sel[0][0] * len(NAMES) * 2 + sel[0][1] * 2 + sel[0][2] == FIRST
     post: _
     """
     # with enable_stropping: false in the language configuration the type files keep their DSDL names; whatever the spelling, the file a type
